@@ -12,7 +12,7 @@
    and the transient lnt / lntOnce (derived from pclinetab on demand).
    Strings are byte lists (Go strings are arbitrary bytes, not UTF-8). *)
 From Coq Require Import ZArith Bool String List.
-From SV Require Import Common.GoInt C17.Codec.
+From SV Require Import Common.GoInt C17.Codec C17.Prog.
 Import ListNotations.
 Open Scope string_scope.
 Open Scope Z_scope.
@@ -105,31 +105,6 @@ Definition dec_program : list (string * ty) :=
   ; ("Toplevel", TRec dec_funcode)                           (* toplevel := d.function() *)
   ; ("Functions", TList (TRec dec_funcode))                  (* funcs := make([]*Funcode, d.int()); d.function() each *)
   ; ("Recursion", TBool) ].                                  (* recursion := d.int() != 0 *)
-
-(* ---------------------------------------------------------------- *)
-(* The Go data: compile.Program and friends                           *)
-
-Record binding := { b_name : bytes; b_line : Z; b_col : Z }.
-
-Inductive const :=
-| CString (s : bytes)
-| CBytes (s : bytes)
-| CInt (z : Z)             (* int64 *)
-| CFloat (bits : Z)        (* math.Float64bits *)
-| CBigInt (text : bytes).  (* big.Int.Text(10): canonical decimal text, see Spec.wt_const *)
-
-Record funcode := {
-  f_name : bytes; f_line : Z; f_col : Z;
-  f_doc : bytes; f_code : bytes; f_pclinetab : list Z;
-  f_locals : list binding; f_cells : list Z; f_freevars : list binding;
-  f_maxstack : Z; f_numparams : Z; f_numkwonly : Z;
-  f_hasvarargs : bool; f_haskwargs : bool }.
-
-Record program := {
-  p_filename : bytes;            (* Toplevel.Pos.Filename(), shared by every position *)
-  p_loads : list binding; p_names : list bytes; p_constants : list const;
-  p_globals : list binding; p_toplevel : funcode; p_functions : list funcode;
-  p_recursion : bool }.
 
 (* ---------------------------------------------------------------- *)
 (* Go data <-> value trees, directed by the field names of a schema   *)
@@ -313,12 +288,6 @@ Definition program_of (S : schema) (v : val) : option program :=
 
 Definition encode_program (p : program) : result bytes :=
   encode_file version (program_ty enc_schema) (program_val enc_schema p).
-
-Inductive decoded :=
-| DProgram (p : program)
-| DError (e : err)
-| DOther (v : val).   (* decoding succeeded but the result contains a nil constant
-                          (unknown constant tag): not a program the compiler produces *)
 
 Definition decode_program (data : bytes) : decoded :=
   match decode_file version (program_ty dec_schema) data with
